@@ -132,3 +132,58 @@ Definition entry_spec (x : sx) : sx :=
   let sc := scene_of (as_Zss (arg 0 x)) in
   let U := unch_exec (sc_edges sc) (sc_border sc) (sc_lcount sc) (S (length (sc_nodes sc))) (sc_nodes sc) in
   of_bools (map (getb U) (zseq 0 (Z.to_nat (as_Z (arg 1 x))))).
+
+(* ---------------------------------------------------------------- the image-level statement *)
+
+(* what the image-level theorem (Proofs/FillImage.v) talks about: the region image, the region
+   graph and the border regions of a label image under a background labelling [bl] *)
+Definition img_lcount (rows : list (list Z)) : Z := fold_left Z.max (concat rows) 0.
+Definition img_regions (rows : list (list Z)) (bl : zmap Z) : zmap Z :=
+  fold_left (fun m p => if getz bl p =? 0 then m else zset m p (getz bl p + img_lcount rows + 1))
+            (zseq 0 (length (concat rows))) (zload (concat rows) 0 zempty).
+Definition img_border (rows : list (list Z)) (bl : zmap Z) : list Z :=
+  todo_of (border_vals (length rows) (length (hd [] rows)) (img_regions rows bl)).
+Definition img_edges (rows : list (list Z)) (bl : zmap Z) : list (Z * Z) :=
+  sym_edges (filter (fun p : Z * Z => negb (fst p =? snd p))
+                    (raw_pairs (length rows) (length (hd [] rows)) (img_regions rows bl))).
+
+(* "[bl], [count] number the 4-connected components of the background {pix = 0}" — the part of
+   scipy.ndimage.label's contract that the theorem uses *)
+Record valid_labelling (rows : list (list Z)) (bl : zmap Z) (count : Z) : Prop := {
+  vl_bg : forall p, 0 <= p < Z.of_nat (length (concat rows)) ->
+          (getz bl p <> 0 <-> getz (zload (concat rows) 0 zempty) p = 0);
+  vl_range : forall p, 0 <= p < Z.of_nat (length (concat rows)) -> 0 <= getz bl p <= count;
+  vl_vert : forall r c, 0 <= r < Z.of_nat (length rows) - 1 -> 0 <= c < Z.of_nat (length (hd [] rows)) ->
+          let Wz := Z.of_nat (length (hd [] rows)) in
+          getz (zload (concat rows) 0 zempty) (r * Wz + c) = 0 -> getz (zload (concat rows) 0 zempty) ((r + 1) * Wz + c) = 0 ->
+          getz bl (r * Wz + c) = getz bl ((r + 1) * Wz + c);
+  vl_horiz : forall r c, 0 <= r < Z.of_nat (length rows) -> 0 <= c < Z.of_nat (length (hd [] rows)) - 1 ->
+          let Wz := Z.of_nat (length (hd [] rows)) in
+          getz (zload (concat rows) 0 zempty) (r * Wz + c) = 0 -> getz (zload (concat rows) 0 zempty) (r * Wz + c + 1) = 0 ->
+          getz bl (r * Wz + c) = getz bl (r * Wz + c + 1)
+}.
+
+(* the same as a boolean test (run on scipy's output for every case, and on label4's) *)
+Definition labelling_ok_b (rows : list (list Z)) (bl : zmap Z) (count : Z) : bool :=
+  let H := length rows in
+  let W := length (hd [] rows) in
+  let Wz := Z.of_nat W in
+  let pix := zload (concat rows) 0 zempty in
+  forallb (fun p => Bool.eqb (negb (getz bl p =? 0)) (getz pix p =? 0) && (0 <=? getz bl p) && (getz bl p <=? count))
+          (zseq 0 (length (concat rows))) &&
+  forallb (fun r => forallb (fun c => negb ((getz pix (r * Wz + c) =? 0) && (getz pix ((r + 1) * Wz + c) =? 0)) ||
+                                       (getz bl (r * Wz + c) =? getz bl ((r + 1) * Wz + c))) (zseq 0 W)) (zseq 0 (pred H)) &&
+  forallb (fun r => forallb (fun c => negb ((getz pix (r * Wz + c) =? 0) && (getz pix (r * Wz + c + 1) =? 0)) ||
+                                       (getz bl (r * Wz + c) =? getz bl (r * Wz + c + 1))) (zseq 0 (pred W))) (zseq 0 H).
+
+Definition rect_nonneg (rows : list (list Z)) : Prop :=
+  Forall (fun r => length r = length (hd [] rows)) rows /\ Forall (fun v => 0 <= v) (concat rows) /\
+  (0 < length (hd [] rows))%nat /\ (0 < length rows)%nat.
+
+(* arg 0: image, arg 1: blabels, arg 2: count -> (hypothesis holds for the given labelling,
+   hypothesis holds for the model's own flood fill) *)
+Definition entry_label_ok (x : sx) : sx :=
+  let rows := as_Zss (arg 0 x) in
+  let own := label4 (Z.of_nat (length rows)) (Z.of_nat (length (hd [] rows))) (zload (concat rows) 0 zempty) (length (concat rows)) in
+  L [of_bool (labelling_ok_b rows (zload (concat (as_Zss (arg 1 x))) 0 zempty) (as_Z (arg 2 x)));
+     of_bool (labelling_ok_b rows (fst own) (snd own))].
